@@ -154,8 +154,8 @@ def run_legs(rep, pid, tier, seed):
         for d in capdrift[:3]:
             rep.model_drift("IntegratorTrace: capacity differs from the doubling rule: %s" % (d,))
     # ---- capacity boundary at the real default size
-    if pid == "C02":
-        btasks = [dict(alt=bool(j % 2), seed=seed * 17 + j, tid=j + 1) for j in range(sz["big"])]
+    if pid in ("C02", "C13"):
+        btasks = [dict(alt=bool(j % 2) if pid == "C02" else False, seed=seed * 17 + j, tid=j + 1) for j in range(sz["big"] if pid == "C02" else max(2, sz["big"] // 2))]
         brecs = [None] * len(btasks)
         for k, status, payload in pool.run_tasks(lambda m, t: integ.record_big_episode(m, t), btasks, init=filt.init_worker, task_timeout=300):
             if status == "done":
@@ -177,7 +177,7 @@ def run_legs(rep, pid, tier, seed):
                 rep.nontrivial.add("big%d" % t["seed"])
                 v = verd.get(r["tid"], dict(failing={"no verdict"}, accepted=False))
                 if v["failing"]:
-                    rep.violation("C02 Integrator: history crossing the default capacity (seed %d) fails %s; %s" % (t["seed"], sorted(v["failing"]), r["exc"]),
+                    rep.violation("%s Integrator: history crossing the default capacity (seed %d, with_altitude=%s, early set_pva) fails %s; %s" % (pid, t["seed"], t["alt"], sorted(v["failing"]), r["exc"]),
                                   dict(kind="big", task=t), key="big")
                 elif not v["accepted"]:
                     rep.model_drift("IntegratorCapTrace: capacity sequence of seed %d is not the doubling rule" % t["seed"])
